@@ -229,7 +229,12 @@ PairClauses(ev, E) ==
     ELSE IF ev.ev = "genstep" /\ prv.luck # E.luck /\ ~AllPre(E.pre, E.a)
       THEN << <<"C07", "pre_failed_outcome_independent_of_draw",
                 /\ prv.res.success = E.res.success /\ prv.res.value = E.res.value
-                /\ prv.post = E.post>> >>
+                /\ prv.post = E.post>>,
+              \* a failed network-level precondition (not discovered / reachable, no pivot, traffic
+              \* blocked, escalation on an uncompromised host) is reported identically on both sides
+              <<"C07", "network_level_failure_report_independent_of_draw",
+                (~NetPre(E.pre, E.a) \/ (E.a.kind = "privesc" /\ ~E.pre[E.a.target].comp))
+                   => prv.res = E.res /\ prv.aux = E.aux>> >>
     ELSE IF ev.ev = "step" /\ prv.u = ev.u
       THEN << <<"C13", "step_equals_genstep",
                 /\ prv.post = E.post /\ prv.postRows = E.postRow
